@@ -572,8 +572,10 @@ class Run:
                 'heap allocation never fails; exceptions, abort and failed assert() are treated as violations',
                 'bounds: see coverage.bounds and per-query config/unwind; nothing is claimed outside them'],
             wall_s=round(wall, 1), violations=len(self.violations))
-        os.makedirs(os.path.join(OUT, 'evidence'), exist_ok=True)
-        json.dump(ev, open(os.path.join(OUT, 'evidence', self.pid + '.json'), 'w'), indent=1, default=str)
+        # a partial run (--only) must not overwrite the evidence of the registered command
+        edir = os.path.join(OUT, 'evidence', '_partial') if self.only else os.path.join(OUT, 'evidence')
+        os.makedirs(edir, exist_ok=True)
+        json.dump(ev, open(os.path.join(edir, self.pid + '.json'), 'w'), indent=1, default=str)
 
 
 def do_replay(pid, path):
